@@ -127,6 +127,15 @@ CLAIMED = {
         "extracted conn_sets / edges_valid; a second batch compares the architectures reachable through GraphProcessor.",
    note=BASE + "DSG.feasible is compared in one direction only. Processor level with connection choices has known findings K5, K22-K26.",
    technique="Coq theorems about an extracted Gallina model + differential correspondence with the implementation", design="§6 C11"),
+ 'C20': dict(
+   text="Theorems: a successful resolve is the derivation closure of the mapped options (final: every reached choice is taken) and "
+        "every mapped choice carries exactly the option its mapping assigns to the source architecture; an option mapping takes "
+        "the entry of the source's selected option, or the None entry when the source choice's originating node is absent; an "
+        "existence mapping takes the first listed source node that exists, else the default; accepted mappings are complete; "
+        "incomplete / duplicate / unresolvable mappings are rejected. SupDSG.resolve is compared with the extracted resolve for "
+        "every architecture of generated source graphs and generated mappings, incl. malformed ones and non-final sources.",
+   note=BASE + "F10 (None key crash) fixed by 8abed32. Known finding K27.",
+   technique="Coq theorems about an extracted Gallina model + differential correspondence with the implementation", design="§6 C20"),
 }
 NA_REASON = "machinery under construction in this round; not yet claimed"
 
